@@ -614,6 +614,7 @@ func runC13RefSched(c *core.Ctx) {
 	w.nU = 2
 	c12QuietGC(c)
 	s := sched.Install(c, nil)
+	s.Disabled = map[string]bool{"udpmux.connWorker.afterAddrLookup": true} // see runC12Conc
 	k := t.Range(2, 4, "handles")
 	c.Knob("handles", k)
 	for i := 0; i < k; i++ {
